@@ -28,7 +28,8 @@ T_RxF == IsEvent("rxf") /\ LET r == Rec[l]
                                e == r.ep IN
   IF mustClose[e] # {} THEN UNCHANGED rrvars          \* frames after the violation in the same packet are not judged
   ELSE IF r.sp # "a"
-  THEN IF r.ty \in {"padding", "ping", "ack", "crypto", "conn_close"} THEN UNCHANGED rrvars ELSE Violation(e, {PROTOCOL_VIOLATION})
+  THEN IF r.ty \in {"padding", "ping", "ack", "crypto"} \/ (r.ty = "conn_close" /\ ~r.app) THEN UNCHANGED rrvars
+       ELSE Violation(e, {PROTOCOL_VIOLATION})      \* RFC 9000 12.4 table 3: frame type not permitted in Initial / Handshake packets
   ELSE CASE r.ty = "stream" ->
               LET v == StreamVerdict(e, r.id, r.off, r.len, r.fin) IN
               IF v # {} /\ r.id \in done[e] /\ v # {STREAM_LIMIT_ERROR} /\ v # {STREAM_STATE_ERROR} THEN UNCHANGED rrvars   \* named: terminal receive state, frames may be ignored
